@@ -93,7 +93,10 @@ def truth(c, v):
         return True
     if isinstance(v, SymSeq):
         return z(v.length) > 0
-    if isinstance(v, (Ext, ExcVal, Closure, BoundMethod, ValMethod)):
+    if isinstance(v, Ext):
+        h = getattr(c.engine, "ext_truth", {}).get(v.kind)
+        return h(c, v) if h else True
+    if isinstance(v, (ExcVal, Closure, BoundMethod, ValMethod)):
         return True
     if isinstance(v, Opaque):
         raise Undecided(f"truthiness of opaque value ({v.what})")
